@@ -34,6 +34,10 @@ impl Controller for StaticResourceController {
 
         let components = boxed_url_components.unwrap();
 
+        if components.path.split(SYMBOL.slash).any(|segment| segment == "..") {
+            return false
+        }
+
         let os_specific_separator : String = FileExt::get_path_separator();
         let os_specific_path = &components.path.replace(SYMBOL.slash, os_specific_separator.as_str());
 
@@ -178,6 +182,10 @@ impl Controller for StaticResourceController {
 impl StaticResourceController {
 
     pub fn is_matching_request(request: &Request) -> bool {
+        if request.request_uri.split(SYMBOL.slash).any(|segment| segment == "..") {
+            return false
+        }
+
         let boxed_static_filepath = FileExt::get_static_filepath(&request.request_uri);
         if boxed_static_filepath.is_err() {
             return false
@@ -275,6 +283,14 @@ impl StaticResourceController {
         }
 
         let components = boxed_url_components.unwrap();
+
+        if components.path.split(SYMBOL.slash).any(|segment| segment == "..") {
+            let error = Error {
+                status_code_reason_phrase: STATUS_CODE_REASON_PHRASE.n403_forbidden,
+                message: "path traversal is not allowed".to_string()
+            };
+            return Err(error)
+        }
 
         let os_specific_separator : String = FileExt::get_path_separator();
         let os_specific_path = &components.path.replace(SYMBOL.slash, os_specific_separator.as_str());
